@@ -369,8 +369,8 @@ def runStFx (fx : Fixes) (cfg : Cfg) : St → List (Op × Ora) → St
 
   The crate documents `sync_dir` as making durable the "renames into or out of this directory".  With
   the repair the implementation does exactly that (both entries of a flushed rename change together),
-  so syncing a directory makes durable — at the place where it lives now — every entry that is in the
-  directory *or left it by a still-unsynced rename*.  The ghost `touched` records which directories the
+  so syncing a directory makes durable every entry that is in the directory, and every entry that
+  *left it by a still-unsynced rename* — at the place where that rename put it.  The ghost `touched` records which directories the
   unsynced renames of an entry involve and where each rename put the entry: an entry that has been
   removed again (in another, unsynced directory) is durable at that place — the removal is not. -/
 
@@ -404,23 +404,32 @@ def touchUpd (l l' : Live) (touched : List (Ent × Nat × (Nat × Nat))) : List 
         ++ (match parentId l kv.1 with | some d => [(qe.2, d, dest)] | none => [])
       | none => [])
 
+/-- ghost clean-up after `sync_dir` of directory `id`: of an entry that has left the directory, the
+    records of the renames up to the last one that involves `id` are consumed (those renames are durable
+    now); the records of later renames stay -/
+def dropFlushed (id : Nat) (moved : List Ent) :
+    List (Ent × Nat × (Nat × Nat)) → List (Ent × Nat × (Nat × Nat))
+  | [] => []
+  | t :: r =>
+    if moved.contains t.1 && ((t :: r).any fun u => u.1 == t.1 && u.2.1 == id) then dropFlushed id moved r
+    else t :: dropFlushed id moved r
+
 def sSyncDirBoth (l : Live) (sp : Spec) (p : Path) : Spec :=
   match dirIdAt l p with
   | none => sp
   | some id =>
     let kids : List ((Nat × Nat) × Ent) := (sChildren l p).map fun kv => ((id, kv.1.getLastD 0), kv.2)
-    -- entries that left this directory by a still-unsynced rename: durable where they live now
+    -- entries that left this directory by a still-unsynced rename
     let movedEnts : List Ent := ((sp.touched.filter fun t => t.2.1 == id).map fun t => t.1).filter fun e =>
       !(kids.any fun k => k.2 == e)
+    -- ... are durable where the last rename that involves this directory put them: that rename is
+    -- durable as a whole; what happened to the entry afterwards in other directories (a further
+    -- rename, a removal) is not.  (If that place is in this directory and the entry is not a child any
+    -- more, it has been removed here, durably.)
     let movedOut : List ((Nat × Nat) × Ent) := movedEnts.eraseDups.filterMap fun e =>
-      match locOf l e with
-      | some loc => some (loc, e)
-      | none =>
-        -- the entry has been removed since, in a directory that is not being synced: that removal is
-        -- not durable, the rename out of this directory is (the entry is durable where the rename put it)
-        match (sp.touched.filter fun t => t.1 == e && t.2.1 == id && t.2.2.1 != id).getLast? with
-        | some t => some (t.2.2, e)
-        | none => none
+      match (sp.touched.filter fun t => t.1 == e && t.2.1 == id).getLast? with
+      | some t => if t.2.2.1 != id then some (t.2.2, e) else none
+      | none => none
     let others := sp.dents.filter fun kv =>
       kv.1.1 != id && !(kids.any fun k => k.2 == kv.2) && !(movedOut.any fun m => m.1 == kv.1 || m.2 == kv.2)
     let d1 := others ++ movedOut ++ kids
@@ -432,8 +441,12 @@ def sSyncDirBoth (l : Live) (sp : Spec) (p : Path) : Spec :=
         | some pid =>
           let key := (pid, p.getLastD 0)
           if d1.any (fun kv => kv.1 == key) then d1 else d1 ++ [(key, .dir id)]
+    let rest := dropFlushed id movedEnts sp.touched
+    -- both records of a consumed rename go (they carry the same destination)
+    let gone := sp.touched.filter fun t => movedEnts.contains t.1 && !(rest.contains t)
     { sp with dents := d2,
-              touched := sp.touched.filter fun t => !(kids.any fun k => k.2 == t.1) && !(movedEnts.contains t.1) }
+              touched := rest.filter fun t =>
+                !(kids.any fun k => k.2 == t.1) && !(gone.any fun g => g.1 == t.1 && g.2.2 == t.2.2) }
 
 def sStepFx (fx : Fixes) (cfg : Cfg) (sp : Spec) (op : Op) (ora : Ora) : Spec × Obs :=
   if fx.syncRenameBoth then
